@@ -7,7 +7,8 @@ RULE = ("cases: vi v rest (encode_varint then decode_varint with a remainder), r
         "bytes), fx v rest (fixed u64), hist wops | rops (writer history on a real Archive file in /dev/shm, close, "
         "reopen, reads). histories: 1..40 streams, re-registration, immediate/buffered mixes, flushes in the middle, "
         "unflushed tails, unknown stream ids, empty parts, data 0..64 kB (mostly < 40 B), metadata and raw sizes at "
-        "every byte-length boundary 0,2^8-1,2^8,...,2^64-1, reads in random order (sequential and by id, past the "
+        "every byte-length boundary 0,2^8-1,2^8,...,2^64-1, long batches (21..300 parts buffered over 2..6 interleaved "
+        "streams before one flush, each read back by index), reads in random order (sequential and by id, past the "
         "end, unknown ids, name lookups); edge stream: non-ASCII / NUL / empty names (outside the theorem's domain, "
         "model vs code only). compared: op results, file length + FNV-1a of the whole file, directory, every read. "
         "non-trivial = a history whose reads returned at least one non-empty part; distinct = distinct case line")
@@ -142,6 +143,34 @@ def gen_hist(rng, edge=False):
     return "hist " + " ".join(w) + " | " + " ".join(r)
 
 
+def gen_hist_batch(rng):
+    """long buffered batches: 21..300 parts buffered over 2..6 streams with interleaved ids before ONE flush (sorting the
+    batch by stream id must keep the insertion order inside each stream; short batches do not exercise a sort's
+    large-input path), a few immediate additions in between, then every part read back by index and sequentially"""
+    ns = rng.randint(2, 6)
+    names = [hx(b"s%d" % i) for i in range(ns)]
+    w = ["r:" + n for n in names]
+    count = [0] * ns
+    for _ in range(rng.choice([1, 1, 2])):
+        for j in range(rng.choice([21, 24, 33, 60, rng.randint(21, 120), rng.randint(100, 300)])):
+            sid = rng.randrange(ns)
+            if rng.random() < 0.06:
+                w.append("a:%x:%s:%x" % (sid, rdata(rng), rmeta(rng)))
+            else:
+                w.append("b:%x:%s:%x" % (sid, hx(bytes([j & 255, j >> 8, rng.getrandbits(8)])), j + 1000))
+            count[sid] += 1
+        w.append("f")
+    r = []
+    for sid in range(ns):
+        idx = list(range(count[sid]))
+        if rng.random() < 0.5:
+            rng.shuffle(idx)
+        r += ["i:%x:%x" % (sid, i) for i in idx[:80]]
+    for sid in rng.sample(range(ns), ns):
+        r += ["g:%x" % sid] * min(count[sid] + 1, 40)
+    return "hist " + " ".join(w) + " | " + " ".join(r)
+
+
 def gen_cases(rng, tier):
     cs = []
     for v in BOUND:
@@ -160,6 +189,8 @@ def gen_cases(rng, tier):
     nh = 2000 if tier == "quick" else 100000
     for i in range(nh):
         cs.append(gen_hist(rng, edge=(i % 25 == 0)))
+    for i in range(nh // 20):
+        cs.append(gen_hist_batch(rng))
     # fixed small histories: the property's own examples and the corner cases named in the model
     cs += [
         "hist |",
